@@ -115,6 +115,13 @@ class ExpireMonitor:
             self.broken = True
             ck.violation(f'expire:handed-to-an-ike-sa-that-does-not-own-the-sa:{amb}', {'spi': spi.hex(), 'daddr': daddr, 'trace': sim.trace[-6:]}, case)
             return
+        if not reacted and not rec.died and b.get(owner[0], {}).get('state') == 'ESTABLISHED':
+            # an idle owner starts the rekey / the deletion at once (a busy one queues the notice, which shows in its queue): a notice that changes nothing was lost
+            self.broken = True
+            ck.violation(f'expire:the-owner-of-the-sa-did-not-react:{amb}', {'spi': spi.hex(), 'daddr': daddr, 'hard': hard, 'trace': sim.trace[-6:]}, case)
+            return
+        if reacted:
+            ck.count('expire.owner_reacted')
         if reacted and rec.sent:
             sa = next(x for x in ep.ctl.ike_sas if id(x) == owner[0])
             d = observe.describe(rec.sent[0][2], observe.crypto_keys(sa.my_crypto))
@@ -610,8 +617,51 @@ def run(ck):
             sim2.settle()
             ck.nontrivial(('collision-same-ike-sa', w % 4))
 
+        # the same collision between TWO IKE_SAs of the SAME pair of addresses (simultaneous initiation): the hub's inbound SPI in the IKE_SA it initiated is the
+        # value its peer picks for its own inbound SPI in the IKE_SA the peer initiated; the table holds the hub-initiated one first
+        sim3, hub3, (r1, r2) = S.make_star(base + 997 * w + 11, peers=2, **star_kw)
+        sim3.case = {'collision': 'two-ike-sas-of-one-pair', 'seed': base + 997 * w + 11, 'star': star_kw}
+        for m in mons:
+            m.reset()
+            sim3.monitors.append(m.on_step)
+        sim3.acquire(hub3, 0, dport=6003)
+        mine3 = [bytes(c_.inbound_spi) for x_ in hub3.ctl.ike_sas for c_ in ([getattr(x_, 'creating_child_sa', None)] if getattr(x_, 'creating_child_sa', None) is not None else [])]
+        if not mine3:
+            continue
+        x3 = mine3[0]
+
+        class OsShim3:
+            def __getattr__(self, n):
+                return getattr(real_os, n)
+
+            used = []
+
+            def urandom(self, k):
+                if k == 4 and S.W.cur is r1 and not self.used:
+                    self.used.append(1)          # only the inbound SPI r1 draws for the CHILD_SA of the IKE_SA it initiates
+                    return x3
+                return real_os.urandom(k)
+        S.r_ikesa.os = OsShim3()
+        try:
+            sim3.acquire(r1, 0, sport=6004)
+            sim3.drain()
+        finally:
+            S.r_ikesa.os = real_os
+        both = [x_ for x_ in hub3.ctl.ike_sas if x_.state.name == 'ESTABLISHED' and x_.child_sas and str(x_.peer_addr) == str(r1.addrs[0])]
+        if len(both) == 2 and any(bytes(c_.inbound_spi) == x3 for c_ in both[0].child_sas) and any(bytes(c_.outbound_spi) == x3 for c_ in both[1].child_sas):
+            ck.count('collision.two_ike_sas_of_one_pair_setups')
+            order3 = [(str(r1.addrs[0]), x3), (str(hub3.addrs[0]), x3)]
+            if w % 2:
+                order3.reverse()
+            for daddr, spi in order3:
+                sim3.expire(hub3, spi, hard=bool(w % 4 < 2), daddr=daddr)
+                sim3.drain()
+            sim3.settle()
+            ck.nontrivial(('collision-two-ike-sas-of-one-pair', w % 4))
+
 
 def verdict(ck):
+    ck.floor('SPI collision set-ups between two IKE_SAs of one pair of addresses', ck.counters['collision.two_ike_sas_of_one_pair_setups'], 6)
     ck.floor('table checks', ck.counters['table.steps_checked'], 20000)
     ck.floor('successor checks', ck.counters['table.successor_checks'], 2000)
     ck.floor('datagrams routed to a known SPI', ck.counters['route.known_spi'], 5000)
